@@ -356,7 +356,14 @@ class ModelsWorld(World):
                 if rng.random() < (0.3 if nv > 1 else 0.12) and TEMPLATES[r.tname]["shocks"]:
                     # assigning a level to a shock is legal; the assignment rules reset it to zero in every variant
                     m["values"][rng.choice(TEMPLATES[r.tname]["shocks"])] = [1.0] * nv if nv > 1 and rng.random() < 0.5 else 1.0
-                if rng.random() < 0.15:
+                if nv > 1 and TEMPLATES[r.tname].get("growth") and rng.random() < 0.3:
+                    # growth scenarios: the variants share level and parameters and differ in the steady change only
+                    tv = [q.human for q in r.real.quantities if "TRANSITION_VARIABLE" in str(q.kind)]
+                    lvl = round(val.uniform(0.5, 2.0), 3)
+                    m["values"] = {rng.choice(tv): [{"t": [lvl, round(1.0 + 0.02 * (j + 1), 3)]} for j in range(nv)]}
+                    self._pending = [{"op": "mutate", "args": {"h": h, "m": {"k": "solve"}}}]
+                    self.probes["growth_scenarios_assigned"] += 1
+                elif rng.random() < 0.15:
                     # (level, change) pair for a variable
                     tv = [q.human for q in r.real.quantities if "TRANSITION_VARIABLE" in str(q.kind)]
                     m["values"][rng.choice(tv)] = {"t": [round(val.uniform(0.5, 2.0), 3), round(val.uniform(0.9, 1.1), 3) if TEMPLATES[r.tname].get("growth") else 0.0]}
